@@ -8,6 +8,9 @@
     flush <n> <piece>*                     -> none | some <chunk>
     loop <pinned 0|1> <limit> <n> <stop>* <m> <ev>* -> <reason> np=<k> out=<n> <chunk>* pend=<n> <piece>*
         ev = E (end of sequence) | <piece>
+    loopsched <pinned> <cap> <k> {<tokens> <reads>}*k <tail> <limit> <n> <stop>* <m> <ev>*
+        -> <reason> np=<k> recv=<n> <chunk>* buf=<n> <chunk>* pend=<n> <piece>* forced=<n>
+        the reader takes <reads> chunks after each of the next <tokens> tokens, then <tail> per token
   Byte strings are hex, `-` is the empty string.
 -/
 import OllamaVerif.Model.Stop
@@ -74,6 +77,22 @@ def handle (toks : List String) : Option String :=
         | some .stop => "stop"
         | some .length => "length"
       pure s!"{reason} np={st.numPredicted} out={showList st.out} pend={showList st.pending}") rest
+  | "loopsched" :: rest =>
+    runTP (do
+      let pinned ← nat
+      let cap ← nat
+      let phases ← listOf (do let a ← nat; let b ← nat; pure (a, b))
+      let tail ← nat
+      let limit ← int
+      let stops ← listOf hex
+      let evs ← listOf pEv
+      let sched := phases.flatMap fun (a, b) => List.replicate a b
+      let (st, c) := runSched (pinned != 0) limit stops cap tail init {} sched evs
+      let reason := match st.done with
+        | none => "running"
+        | some .stop => "stop"
+        | some .length => "length"
+      pure s!"{reason} np={st.numPredicted} recv={showList c.recv} buf={showList c.buf} pend={showList st.pending} forced={c.forced}") rest
   | _ => none
 
 end Oracle.C14
